@@ -878,6 +878,16 @@ func (c *Check) ruleSaveNotSkipped(rule string, saveKeys []string, repoRel, repo
 		var wit []string
 		var pos token.Pos = fn.Pos()
 		for _, ret := range returnsOf(fn) {
+			if _, edges := nilErrorSources(ret); len(edges) > 0 {
+				for _, src := range edges {
+					if ok, w := alwaysPrecededBy(src.At, writes); !ok {
+						skipping = true
+						wit = w
+						pos = ret.Pos()
+					}
+				}
+				continue
+			}
 			if isNil, known := errIsNilReturn(ret); known && !isNil {
 				continue
 			}
@@ -1242,6 +1252,20 @@ func (c *Check) ruleQueuedOnlyOnSend(rule string, fChan *types.Var) {
 	})
 	n := 0
 	for _, ret := range returnsOf(fn) {
+		// a single return of a result variable: each path on which it is nil must come from the send
+		if _, edges := nilErrorSources(ret); len(edges) > 0 {
+			handled := false
+			for _, src := range edges {
+				handled = true
+				n++
+				ok, w := mustPassAt(src, sent)
+				c.Decide(ok, rule, "client.(*RemoteClient).addHandlerMessage#success-only-after-send", ret.Pos(), "edge-cutset", w,
+					"success is reported only when the message was put on the handler channel", "addHandlerMessage can report success for a message that was never queued: the callers advance the next message id on success, so the id counts a message the handler never got and the reconnect does not ask for it again")
+			}
+			if handled {
+				continue
+			}
+		}
 		isNil, known := errIsNilReturn(ret)
 		if known && !isNil {
 			continue
@@ -1281,6 +1305,15 @@ func (c *Check) ruleFreshSessionPerConnect(rule string, fHash *types.Var) {
 	}
 	n := 0
 	for _, ret := range returnsOf(fn) {
+		if _, edges := nilErrorSources(ret); len(edges) > 0 {
+			for _, src := range edges {
+				n++
+				ok, w := alwaysPrecededBy(src.At, stores)
+				c.Decide(ok && len(stores) > 0, rule, "client.(*RemoteClient).generateSession#fresh-hash-on-success", ret.Pos(), "path-typestate", w,
+					"every successful return follows the store of a newly derived session hash", "generateSession can succeed without deriving a new session hash (keeps the previous connection's): a genuine accept recorded for that earlier hash can be replayed on the new connection")
+			}
+			continue
+		}
 		isNil, known := errIsNilReturn(ret)
 		if known && !isNil {
 			continue
@@ -1483,4 +1516,29 @@ func canonicalHashData(v ssa.Value) ssa.Value {
 		}
 	}
 	return nil
+}
+
+// nilErrorSources: the ways this return can report success. direct: its error result is the nil
+// constant. edges: it returns a result variable (phi) that is nil over these incoming edges.
+func nilErrorSources(ret *ssa.Return) (direct bool, edges []constAt) {
+	if len(ret.Results) == 0 {
+		return false, nil
+	}
+	vals := resultValues(ret, len(ret.Results)-1)
+	if len(vals) != 1 {
+		return false, nil
+	}
+	v := vals[0]
+	if c, ok := v.(*ssa.Const); ok {
+		return c.IsNil(), nil
+	}
+	if _, ok := v.(*ssa.Phi); ok {
+		srcs, _ := constSources(ret, v, 0)
+		for _, s := range srcs {
+			if s.Val.IsNil() {
+				edges = append(edges, s)
+			}
+		}
+	}
+	return false, edges
 }
